@@ -63,6 +63,27 @@ CHECKS = {
         "available without alloc, all Encoder methods) and compared line by line with the model at that configuration.",
    design="5/C20", technique="Lean 4 proof (case analysis on the initial byte) + six-configuration differential correspondence against the configured model",
    note="partial: serde-bridge configurations (no-alloc bridge rejecting indefinite strings / collect_str) are not built separately yet; only x86-64 is compiled; message texts are not compared"),
+ "C06": dict(
+   text="Lean theorems (full, no partial fallback) about the model of both builds of Decoder::skip. skip_exact: for EVERY valid wire tree "
+        "(arbitrarily nested definite/indefinite arrays and maps, chunked strings, tag chains, any head widths, unbounded size) followed by "
+        "arbitrary bytes, the alloc skip returns ok and stops exactly after the item; proved by a refinement argument (relation between the "
+        "concrete (nrounds, irounds, stack) state and the obviously-correct weight machine, preserved by every token kind in counting mode, stack "
+        "mode and across the switch; no saturation; fuel adequacy). skip_prefix_err: error on every strict prefix (via skip_ext: a successful skip "
+        "never looks past what it consumed). noalloc_lockstep / noalloc_refines (ARBITRARY bytes): the no-alloc skip computes exactly what the "
+        "alloc skip computes or returns the message error, so ok => same position; noalloc_exact_or_unsupported: on valid items exact, or the "
+        "message error and then the tree really has an indefinite array/map inside a definite one; noalloc_exact on all other trees. "
+        "skip_no_panic (arbitrary bytes, both builds: `*n -= 1` never underflows, fuel never exhausted), skip_stack_le_consumed (stack length + "
+        "irounds <= bytes consumed, small-step semantics Reach), skip_agrees_parse + parse_encW + parse_sound + wellformed_iff: an independent "
+        "reference decoder (Parse.lean) is sound and complete for the wire spec and skip ends exactly where it ends. "
+        "Correspondence: ~0.6M (quick) / ~9M (thorough) ops: all tree shapes <= 5 nodes, random trees to depth 8, chains to depth 10^3/10^4, "
+        "mode-switch stress nests, each with random suffixes and strict prefixes, on the real alloc build (hcore) and on a standalone crate built "
+        "WITHOUT features (the no-alloc skip, which the workspace never compiles), judged by the property's oracle, by equality with the model "
+        "and by the Lean reference decoder as independent spec.",
+   design="5/C06", technique="Lean 4 proof (refinement/simulation by mutual structural induction over wire trees; token view; lockstep of the two builds) "
+        "+ differential correspondence on two builds with in-orchestrator oracle and Lean reference parser as spec",
+   note="All exactness theorems carry the hypothesis (encW w).length < 2^64 (true of every Rust slice): the model's byte lists are unbounded, and on "
+        "a >2^64-byte encoding the saturating u64 counters would clip (model artefact, not reachable in Rust). 32-bit targets (u64_to_usize failing) "
+        "are not modelled. The no-alloc build is exercised through a separate crate /verif/harness/noalloc (own workspace/target dir)."),
  "C05": dict(
    text="Lean theorem int_accessor_exact: for every accessor type (u8..u64,i8..i64,Int), every sign, every head width and every argument that fits the width, "
         "the model accessor returns the mathematical value and stops right after the head iff the value is representable in the type, and an error otherwise "
@@ -70,6 +91,19 @@ CHECKS = {
         "property's own oracle in the orchestrator and compared with the model.",
    design="5/C05", technique="Lean 4 proof (head read-back lemma, case analysis, omega) + differential correspondence with in-orchestrator oracle",
    note="Int <-> primitive TryFrom conversions and NonZero/usize impls: see C01/C04 streams; proofs for Int conversions pending"),
+ "C12": dict(
+   text="Lean theorems about the model's float paths (the definitions mcdrv executes): f32/f64 bit patterns round-trip identically through Encoder/Decoder for all 2^32 / 2^64 "
+        "patterns; each of the 65 536 half patterns is converted by f16ToF32 (transcription of half's portable to_f32) to a binary32 of exactly the same value (complete kernel-evaluated "
+        "table); f64::from(f32) is exact for all 2^32 patterns (proof by exponent class, subnormals via Nat.log2); f32/f64 accessors on f9/fa items return the widening and the exact "
+        "value; f32 on fb and f16 on fa/fb items are type errors; f32ToF16 (transcription of half's portable from_f32) is exact on every half-representable value (table), maps NaN to NaN "
+        "of the same sign, and for ALL finite binary32 inputs rounds to nearest with ties to even, overflowing to infinity exactly from 65520 (f16_encode_rne: full proof over exact "
+        "magnitudes, no table). Correspondence: all half patterns, ~2^20 stratified f32 patterns (every exponent, every rounding tie shape) and f64 boundaries per-op against an "
+        "orchestrator-side oracle (CPython struct codecs) and the model; blocks of 2^25 (quick) / all 2^32 (thorough) binary32 patterns through the real Encoder::f16 / Decoder::f64 / "
+        "Decoder::f32 against an independent value-based reference inside the harness, hash-compared with the model.",
+   design="5/C12", technique="Lean 4 proof (finite tables by decide +kernel, exponent-class case analysis, grid-monotonicity argument for RNE, omega) + differential correspondence with independent oracles",
+   note="the half crate's portable software path is what the pinned build uses on x86_64 (default-features = false) and what is modelled; its F16C/NEON paths are not exercised. "
+        "NaN payload propagation is implementation-defined in IEEE 754: the oracle checks NaN-ness and sign, the exact payload is compared with the model only. "
+        "In the thorough tier the exhaustive 2^32 sweep is judged by the harness reference; the model hash covers a 2^28 (enc f16) subset for time reasons."),
 }
 
 def main():
